@@ -53,10 +53,11 @@ def VFile.readRange (f : VFile) (off len : Nat) : List Nat :=
 def VFile.getBlock (f : VFile) (bx by_ z : Nat) : Option VBlock :=
   f.blocks.find? fun k => k.bx == bx && k.by_ == by_ && k.z == z
 
-/-- `get_block_tile_index` (reader.rs:137-153): reading/decoding assumed to succeed;
-    `assert_eq!(tile_index.len(), block.count_tiles() as usize)` (reader.rs:149) -/
+/-- `get_block_tile_index` (reader.rs:137-158): reading/decoding assumed to succeed;
+    `ensure!(tile_index.len() as u64 == block.count_tiles(), ..)` – an `Err` since commit c1d32dc4
+    (it was an `assert_eq!` before); the lookup propagates it with `?`, the stream `unwrap`s it -/
 def VBlock.tileIndexO (k : VBlock) : Outcome (List VEntry) :=
-  if k.index.length ≠ k.box.countTiles then .panic else .ok k.index
+  if k.index.length ≠ k.box.countTiles then .err else .ok k.index
 
 /-- `get_tile_data` (reader.rs:191-229).
     * :193 `TileCoord3::new(x >> 8, y >> 8, z)?` – `Err` for `z > 31`;
